@@ -18,7 +18,12 @@ import (
 
 // issueEventNames: event type, list attribute key and context attribute key of the event in which the issuer
 // announces the request list (the constants' values).
+// otherListKeys: every attribute of the issue event that carries a marshalled list (the id list is one of them).
+var otherListKeys = map[string]bool{}
+
 func (c *Check) issueEventNames() (evType, listKey, ctxKey string) {
+	strongList := false
+	otherListKeys = map[string]bool{}
 	for _, f := range c.handFuncs("keeper", "service") {
 		for _, pa := range c.P.PathsOf(f) {
 			gen := false
@@ -52,7 +57,19 @@ func (c *Check) issueEventNames() (evType, listKey, ctxKey string) {
 							}
 							switch {
 							case at.A[1].ContainsOp("encoding/json.Marshal"):
-								listKey = constString(at.A[0])
+								// the list of request ids (other lists may be announced beside it)
+								ids := false
+								at.A[1].Walk(func(x *Term) bool {
+									if strings.HasSuffix(x.Op, "json.Marshal") && len(x.A) == 1 && x.A[0].Typ != nil && strings.Contains(typeName(x.A[0].Typ), "HexBytes") {
+										ids = true
+									}
+									return true
+								})
+								if ids || listKey == "" || !strongList {
+									listKey = constString(at.A[0])
+									strongList = strongList || ids
+								}
+								otherListKeys[constString(at.A[0])] = true
 							case strings.HasSuffix(at.A[1].Op, "HexBytes.String") && len(at.A[1].A) == 1 && ctxIDs[stripConv(at.A[1].A[0]).String()]:
 								ctxKey = constString(at.A[0])
 							}
@@ -318,6 +335,19 @@ func (c *Check) clientRecovery(rule string) {
 		var missing []string
 		for _, want := range []string{evType, listKey, ctxKey} {
 			if want != "" && !names[want] {
+				if want == listKey {
+					// several lists are announced: the client reads one of them (which one holds the ids is decided by
+					// position-in-event above)
+					alt := false
+					for k := range otherListKeys {
+						if names[k] {
+							alt = true
+						}
+					}
+					if alt {
+						continue
+					}
+				}
 				missing = append(missing, fmt.Sprintf("%q", want))
 			}
 		}
